@@ -247,6 +247,69 @@ func rulePairLexical(c *Ctx, r *R) {
 					r.check(isFree, "restore:"+ssaFuncName(fn), site, "restores a value captured before the switch", "deferred closure stores something other than the saved environment")
 					continue
 				}
+				if isLexicalRestore(st) {
+					// putting back the environment saved earlier in this function: the end of the switch, not a new one
+					r.ok("restore:"+ssaFuncName(fn), site, "stores back the environment this function saved from scope.lexical")
+					continue
+				}
+				// ES5 12.14: the Finally block runs in the environment the try statement was entered with - the catch
+				// environment is taken off (step 7 of Catch) before it. A restore that only happens in a deferred
+				// closure runs after the finally block.
+				if fin := finallyEvaluation(fn); fin != nil {
+					cut := map[*ssa.BasicBlock]bool{}
+					for _, b2 := range fn.Blocks {
+						for _, i2 := range b2.Instrs {
+							if s2, ok := i2.(*ssa.Store); ok && s2 != st && isFieldAddr(s2.Addr, "scope", "lexical") && isLexicalRestore(s2) {
+								cut[b2] = true
+							}
+						}
+					}
+					reach := false
+					seenB := map[*ssa.BasicBlock]bool{}
+					var dfs func(b2 *ssa.BasicBlock)
+					dfs = func(b2 *ssa.BasicBlock) {
+						if seenB[b2] || reach {
+							return
+						}
+						seenB[b2] = true
+						if b2 == fin.Block() {
+							reach = true
+							return
+						}
+						if cut[b2] {
+							return
+						}
+						for _, s2 := range b2.Succs {
+							dfs(s2)
+						}
+					}
+					// the rest of the block holding the switch itself
+					restoredHere, after := false, false
+					for _, i2 := range b.Instrs {
+						if i2 == ins {
+							after = true
+							continue
+						}
+						if !after {
+							continue
+						}
+						if s2, ok := i2.(*ssa.Store); ok && isFieldAddr(s2.Addr, "scope", "lexical") && isLexicalRestore(s2) {
+							restoredHere = true
+							break
+						}
+						if i2 == ssa.Instruction(fin) {
+							reach = true
+							break
+						}
+					}
+					if !restoredHere && !reach {
+						for _, s2 := range b.Succs {
+							dfs(s2)
+						}
+					}
+					r.check(!reach, "finally-env:"+ssaFuncName(fn), site, "every path from the catch environment switch to the evaluation of the finally block stores the saved environment back first",
+						"the finally block is evaluated (at "+c.Pos(instrPos(fin))+") while the catch environment is still the LexicalEnvironment (it is only restored by the deferred closure, when the whole statement returns): `var e = 'outer'; try { throw 'inner' } catch (e) {} finally { seen = e }` sees 'inner', an assignment to the name in finally is lost, and closures created there capture the catch parameter (ES5 12.14)")
+				}
 				res := mustReachBefore(ins, func(i ssa.Instruction) bool {
 					d, ok := i.(*ssa.Defer)
 					if !ok {
@@ -270,6 +333,34 @@ func rulePairLexical(c *Ctx, r *R) {
 			}
 		}
 	}
+}
+
+// isLexicalRestore: the store puts back a value this function loaded from scope.lexical (directly or through the
+// local cell a deferred closure shares).
+func isLexicalRestore(st *ssa.Store) bool {
+	v := normCell(st.Val)
+	if a := loadAddr(v); a != nil && isFieldAddr(a, "scope", "lexical") {
+		return true
+	}
+	return false
+}
+
+// finallyEvaluation: the call that evaluates the `finally` field of a try node in fn (nil if none).
+func finallyEvaluation(fn *ssa.Function) *ssa.Call {
+	for _, b := range fn.Blocks {
+		for _, ins := range b.Instrs {
+			call, ok := ins.(*ssa.Call)
+			if !ok {
+				continue
+			}
+			for _, a := range call.Call.Args {
+				if ld := loadAddr(a); ld != nil && isFieldAddr(ld, "nodeTryStatement", "finally") {
+					return call
+				}
+			}
+		}
+	}
+	return nil
 }
 
 func storedFreeVar(v ssa.Value) (*ssa.FreeVar, bool) {
